@@ -1913,10 +1913,11 @@ class CodeInstrumenter(m.MatcherDecoratableTransformer):
                 old_else = updated_node.orelse.body.body
             else:
                 old_else = []
+            # the loop is exhausted before its else clause runs (as reported when enter_for is selected too)
             else_part = cst.Else(
                 body=cst.IndentedBlock(
-                    body=list(old_else)
-                    + [cst.SimpleStatementLine(body=[cst.Expr(value=end_call)])]
+                    body=[cst.SimpleStatementLine(body=[cst.Expr(value=end_call)])]
+                    + list(old_else)
                 )
             )
             generator_call = updated_node.iter
